@@ -7,19 +7,7 @@ TECH = 'machine-checked proof in Coq 8.16 over an executable Gallina model; mode
 NOTE = ('Coq 8.16.1 kernel (vm_compute used, no native_compute); development declares no axioms (Print Assumptions parsed on every run); '
         'translator tools/extract_src.py; extraction ExtrOcamlBasic only; OCaml driver; Rust harness with --cfg pearl_verif; '
         'the hand-written model itself (DESIGN.md section 2 lists what is modelled, not verified)')
-CLAIMED = {
- 'C17': 'Theorems (Properties/C17.v): the constants, hasher-key rule, aHash constants and the field order/types of every on-disk struct regenerated from the CURRENT source equal the pinned release\'s (reflexivity: any change breaks the proof); record-header codec round trip for every key length; a blob with another version is rejected with BlobVersion, a blob whose first record has another key length with BlobKeySize, by the byte-level open model. Corpus (committed, written by the pinned tree): the Coq model replays each history and reproduces every recorded answer and every blob file byte for byte; the current crate opens every directory for every subset of removed index files (eager and lazy) and must answer as recorded; key-size / version mismatch variants must be rejected, index version / key-size mismatch must be ignored.',
- 'C01': 'Theorems (Properties/C01.v): after EVERY history of the L3 storage model (writes/deletes with arbitrary timestamps, lifecycle and background requests, restarts, index removal; any key length and config) read/contains = top-ranked record of the log (greatest timestamp, then newest blob, then newest append), unless the known class F2 was hit (ghost flag; refutation witness included). Model = code by differential runs: every read/contains after every op on generated histories, compared with the model AND with the Coq spec.',
- 'C03': 'Theorems (Properties/C03.v): after every history, close+open (eager or lazy), close+removal of any subset of index files+open, and a session ended without close followed by open leave the log unchanged, hence every read answers as before; the per-blob invariant (index = index of the blob records; an index file describes a prefix of its blob and is trusted only if its recorded size equals the blob size) and the id invariant are kept. Byte-level acceptance of damaged index files (Index/Open.v) is being proved (truncation inside the tree/leaf region is accepted: finding F5). Check: damage patterns (removed, truncated at many lengths, header only, written flag cleared, stale size) between sessions, all queries + counts before vs after, eager/lazy, debug+release.',
- 'C04': 'Theorems (Properties/C04.v): every non-data operation (lifecycle, background requests in any state, force_update, free_excess, dumps at quiescence, close/drop/open, index removal) leaves the log untouched after every history, hence reads unchanged; invariant kept by every operation; "keeps accepting writes" is refuted by the faithful model (F2 witness by vm_compute). Correspondence: maintenance op between data ops with p=1/2, all queries after every op.',
- 'C05': 'Theorems (Properties/C05.v): bytes appended = header++meta++data with offset/CRC patched, independent of the single-pass threshold; Entry::load round trip for every key/meta/data length; header codec round trip; CRC-32C detects every error burst of <= 32 bits at every position and length (proved from scratch on the bit-serial model), byte-level corollaries; data with a different checksum is never returned. Correspondence: blob files byte-exact (incl. CRCs, thresholds 4096/81920), reads after 1-bit/1-byte/burst damage with index in memory, on disk, regenerated; debug and release builds.',
- 'C02': 'Theorems (Properties/C02.v): for every state whose indexes describe their blobs (established after every history), read_all_with_deletion_marker = all records of the key in rank order cut after the first marker (the per-blob cut + stable re-sort + global cut of the code is proved equal to one global sort and cut, any number of blobs); read_all = that without the marker; read_with(meta) = first listed record with that meta, else Deleted if the list ends in a marker, else NotFound (per-blob lookup merged by latest proved equal to the global lookup). delete return values and duplicate-write acknowledgements are tied by correspondence with the model (both policies).',
- 'C06': 'PARTIAL. Byte-level model of Blob::from_file / RawRecords (Blob/Scan.v) and of the quarantine classification; theorems so far: only a blob-version mismatch fails init, files shorter than the header are quarantined (the every-prefix scan theorem is in progress, Blob/ScanProofs.v). Power-loss enumeration on the real crate: the blob being appended is cut at record boundaries +-1, inside header/meta/data of the tail record and random lengths, validation on/off, ignore_corrupted on/off; the number of served records must equal the Coq scan model applied to the model blob bytes; prefix/quarantine-intact/post-recovery-durability predicates; kill mode with a SIGKILLed child process. The model cannot exhibit kernel/file-system behaviour (suffix loss, rename atomicity): assumed. Known findings F6, F16.',
- 'C07': 'Theorems (Properties/C07.v): after any history every blob that existed earlier still exists with the same id and its record list -- and hence its file bytes -- has the earlier content as a prefix (append-only, all operations incl. restarts, drops, index removal); queries change nothing; new blob ids are fresh and grow. Checked on the real crate through the I/O tap (hook H1): every append to a *.blob lands at EOF, no positional write / re-creation of a blob, byte snapshots of all blob files (work dir + corrupted dir) are prefix-monotone after every op, query phases issue no write.',
- 'C12': 'Theorems (Properties/C12.v): EVERY history of the storage model produces a file-operation trace accepted by the three predicates of Io/Trace.v (appends at EOF; a blob header is synced before any record; an index is marked written only when every byte of its blob is synced), with meaning theorems over the file-state machine (length, synced length) and protocol theorems (any number of records; no dirty byte after a dump). The SAME predicates, extracted, judge the trace recorded from the real crate (hook H1) on every script, and per-file event sequences are compared with the model trace. PARTIAL: the liveness clause (un-synced bytes above the limit are eventually synced without client action) is checked on the real crate at quiescence points only (dirty bytes vs limit after every op), not proved; explicit fsyncdata leaving dirty bytes is known finding F8.',
- 'C09': 'Theorem C09_equiv (Properties/C09.v), UNBOUNDED: for every in-memory index (any keys, any versions in any order, runs longer than a block, any tree height) and every key length 1..1000, the index file built by the model of the serializer (leaf packing by remaining block space, bottom-up node layering with byte offsets) answers latest / all-versions lookups of every present and absent key, count and load exactly like the in-memory index (descent, in-leaf binary search, leftmost/right expansion across blocks, every node fits a block and is followed by >= 4096 bytes). Fan-out and node size are proved equal to the functions regenerated from serializer.rs/node.rs on every run; BLOCK_SIZE is the regenerated constant. Model = code: byte-exact index files (hash masked) and every lookup through hook H2 over shapes up to 3 node levels, K in {1,4,32,138,250,503,1000}, debug and release.',
- 'C10': 'Theorems (Properties/C10.v) over the model of AtomicBitVec/Bloom: no false negative for every hash family, bit count and key sequence; off-loaded file probe = in-memory probe through the bincode layout; merge keeps keys. The bit-index functions the proofs unfold are regenerated from the Rust source on every run; the rest is tied by byte-exact differential runs (Bloom::to_raw with the aHash model, probes).',
-}
+CLAIMED = json.load(open(os.path.join(V, 'tools', 'claims.json')))
 def chk(pid):
     return {"property_id": pid, "quick_cmd": "./check %s --tier quick" % pid, "thorough_cmd": "./check %s --tier thorough" % pid,
             "evidence_file": "/verif/evidence/%s.json" % pid, "replay_cmd_template": "./check %s --replay {path}" % pid,
